@@ -25,7 +25,7 @@ def run(cmd, cwd, timeout=1800, env=None):
 
 
 def main():
-    out, prop, name = sys.argv[1], sys.argv[2], sys.argv[3]
+    out, prop, name = os.path.abspath(sys.argv[1]), sys.argv[2], sys.argv[3]
     checks = sys.argv[4:] or [prop]
     meta = json.load(open(os.path.join(out, "meta.json")))
     if "demo" in meta and os.path.exists(os.path.join(out, "seed_meta.json")):
